@@ -17,7 +17,7 @@ L_KNUTH = "Knuth's LR(1) theorem (closed states + goto kernels + table read off 
 GLUE = 'grammar_info glue: analyze_term / analyze_nterm / analyze_eof / analyze_error_recovery_token / make_symbol / analyze_rule are under contract (unit glue) against abstract DSL objects whose accessors are under contract in units terms, rules, values; the pack expansions that call them once per term / nonterminal / rule (analyze_terms, analyze_nterms, analyze_rules), create_lexer and init_reductors (R18) are outside the extraction'
 
 PROPS = {
-    'C01': dict(units=['state_analyzer', 'state_analyzer@small', 'driver', 'stdex', 'glue', 'utils'],
+    'C01': dict(units=['state_analyzer', 'state_analyzer@small', 'driver', 'stdex', 'glue', 'charnames'],
                 claim='local step contracts of the LR(1) construction that are within reach: item index encode/decode round trip, memo-key injectivity of the FIRST/nullable slice memos, rule sorting (ordered + permutation) and per-nonterminal slices (partition), add_situation (item set, item list, bucket by symbol after the dot, kernel), bitset primitives; and the driver executing the table entry of (top state, presented term)',
                 assumptions=[L_KNUTH, GLUE, L_PATH, TABLE_WF]),
     'C03': dict(units=['regex_decode', 'dfa', 'dfa@small'], static=[SF.regex_grammar_static],
@@ -31,7 +31,7 @@ PROPS = {
                 claim='absence of undefined behaviour (every CBMC safety check and every woven logical bound) on the whole parse path including the failure and recovery paths (lexical error in get_current_term, non-matching regex::expr::match, popping during recovery): the exact condition under which a constant evaluator must accept the evaluation; the parse path is one lowered text for all buffer kinds (R7)',
                 assumptions=["that g++'s and clang's constant evaluators and the compiled code compute the same function of a UB-free evaluation is the language standard (trusted)",
                              'buffer adaptors: cstring_buffer::iterator operators, begin/end and get_view of the three buffers are under contract (unit buffers) with std::string / std::string_view members read as (pointer, length) pairs and their iterators as pointers (standard-library meaning, trusted); the cstring_buffer constructor (pack-expanded copy_array) is a pattern fact only', LEXER]),
-    'C11': dict(units=['diag', 'state_analyzer', 'state_analyzer@small', 'glue', 'utils', 'dfadiag'],
+    'C11': dict(units=['diag', 'state_analyzer', 'state_analyzer@small', 'glue', 'dfadiag', 'charnames'],
                 claim='write_state_diag_str prints for every term column exactly one action line of the kind the table entry has, with the rule number / target state of that entry (including the losing reduction of a resolved S/R conflict); the RULES list numbers rules as the action lines do; all name/rule/symbol indices in bounds; add_situation files an item under the symbol after its dot',
                 assumptions=['that the item sets and conflict flags in the table are the true LR(1) ones is C01 (transitions/closure not under contract)', 'text formatting is lowered to events (R10)', 'DFA dump: f_range (a run of bytes is shown with its target, the ghost-chosen byte exactly when it is in the run) and the per-automaton loop (one line per state, in order) are under contract; the per-state writer write_dfa_state_diag_str is NOT (job does not finish): its contract is assumed where the loop uses it']),
     'C12': dict(units=['dfa', 'driver', 'stdex', 'state_analyzer', 'cvec_iter', 'glue'],
@@ -51,7 +51,7 @@ PROPS = {
     'C08': dict(units=['driver', 'state_analyzer', 'glue', 'state_analyzer@small'],
                 claim='step relation of the driver loop written from the documented recovery algorithm: enter (one message, nothing discarded), pop (one state and its value), shift of the error symbol, input discarding, exits',
                 assumptions=[L_PATH, L_IDS, TABLE_WF, LEXER]),
-    'C09': dict(units=['driver', 'terms', 'values', 'glue', 'dfa', 'utils'],
+    'C09': dict(units=['driver', 'terms', 'values', 'glue', 'dfa', 'charnames'],
                 claim='without error rules and not verbose: no event before the failure, exactly one (Unexpected character | Syntax error) on failure with position and payload, none on success',
                 assumptions=[L_PATH, TABLE_WF, LEXER, 'that the term reported is the first that cannot continue a valid prefix is the immediate-error-detection property of canonical LR(1) tables (C01), not mechanised']),
     'C10': dict(units=['driver', 'values'],
@@ -71,10 +71,10 @@ PROPS = {
     'C15': dict(units=['driver'], all=['driver'], static=[SF.c15_static],
                 claim='frame: no parse-path function writes parse_table, gi, state_count, names or any other parser member (assigns clauses contain only parse-local state); static scan: no mutable/const_cast/function-local static, parse members const',
                 assumptions=['data-race freedom follows from read-only sharing; no schedule is explored', R13]),
-    'C16': dict(units=['driver', 'values', 'entry', 'utils'], all=['driver'], static=[SF.c16_static],
+    'C16': dict(units=['driver', 'values', 'entry', 'charnames'], all=['driver'], static=[SF.c16_static],
                 claim='every contract states the same state change for verbose on and off (verbose only adds events); trace payloads (Shift to, Reduced using rule, Go to, Recognized) equal the action performed',
                 assumptions=['stream type: both no_stream and std::ostream lower to the ghost event sink (R10); text formatting is not verified', LEXER]),
-    'C17': dict(units=['utils', 'regex_lexer', 'terms', 'values', 'glue'], static=[SF.regex_grammar_static],
+    'C17': dict(units=['utils', 'regex_lexer', 'terms', 'values', 'glue', 'charnames'], static=[SF.regex_grammar_static],
                 claim='regex_lexer::match and its helpers read only the pattern array (terminator included) and refuse raw non-printable bytes, dangling backslashes and unterminated sets; find_str never returns a wrong or uninitialized index',
                 assumptions=['patterns are NUL-terminated arrays (cstring_buffer keeps the terminator at end())',
                              'grammar-level rejections (unbalanced group, leading quantifier, empty alternative, {}) rest on C01 applied to the regex grammar: not mechanised']),
